@@ -282,6 +282,38 @@ Theorem C06_failure_reaches_caller_chain :
 Proof. intros sp ft fp c Hv Hns Hft Hfp. apply chain_nosav_failure_reaches_caller; auto. Qed.
 Print Assumptions C06_failure_reaches_caller_chain.
 
+(* the same chains, the CONSUMER fails: it raises c while handling chunk k — every maximal run ends with all threads
+   finished and the caller holding c (the invariant is the same with "no stage fails"; when the consumer's failure
+   fires the caller kills its input mailbox and enters kill-all, from where C06_noticed_failure_shuts_down applies) *)
+Theorem C06_consumer_exception_chain :
+  forall (sp : chain_spec) (k c : nat),
+    valid_chain sp -> ch_nsav sp = repeat 0 (length (ch_caps sp)) -> k < ch_N sp ->
+    failure_reaches_caller (chain_net sp true None (Some (k, false, c))) (chain_init sp true None (Some (k, false, c)))
+                           (chain_main sp) (ch_N sp) c.
+Proof. intros sp k c Hv Hns Hk. apply chain_nosav_consumer_exception; auto. Qed.
+Print Assumptions C06_consumer_exception_chain.
+
+(* ... or it closes the iterator after chunk k: all threads stop on every schedule; through Context.get_iter the caller
+   sees OutsideException, on the processor's own iterator close() returns (GeneratorExit re-raised; needs repair F1) *)
+Theorem C06_consumer_close_stops_all :
+  forall (sp : chain_spec) (k c : nat),
+    valid_chain sp -> ch_nsav sp = repeat 0 (length (ch_caps sp)) -> k < ch_N sp ->
+    failure_reaches_caller (chain_net sp true None (Some (k, true, c))) (chain_init sp true None (Some (k, true, c)))
+                           (chain_main sp) (ch_N sp) (if ch_relay sp then C_OUTSIDE else C_GENEXIT).
+Proof. intros sp k c Hv Hns Hk. apply chain_nosav_consumer_close; auto. Qed.
+Print Assumptions C06_consumer_close_stops_all.
+
+(* ... and when NOTHING fails, every maximal run of such a chain ends with all threads finished and the caller holding
+   all N chunks in order: no schedule deadlocks, whatever the capacities (>= 1), lazy or eager.  (The caller reads the
+   end marker only after every stage has closed its mailbox — closed (j+1) -> closed j — so cleanup() joins finished
+   threads only and the final saver check has nothing to report.) *)
+Theorem C06_no_failure_terminates_chain :
+  forall sp : chain_spec,
+    valid_chain sp -> ch_nsav sp = repeat 0 (length (ch_caps sp)) ->
+    completes (chain_net sp true None None) (chain_init sp true None None) (chain_main sp) (ch_N sp).
+Proof. intros sp Hv Hns. apply chain_nosav_completes; auto. Qed.
+Print Assumptions C06_no_failure_terminates_chain.
+
 (* an instance far outside what the explorer can enumerate: 6 stages, 40 chunks, mixed capacities, lazy, through
    get_iter; stage 3 fails at chunk 17 *)
 Example C06_chain_instance_6x40 :
@@ -296,6 +328,12 @@ Proof.
   - cbn. lia.
   - cbn. lia.
 Qed.
+
+(* first steps of the same theorems WITH savers (not finished, see design_notes/C06.md B.2): the mailbox-level
+   invariant for several subscribers (the box is the part of the stream the slowest subscriber has not read: MokM, with
+   has_msg_multi / take_multi / push_multi / wait_multi / read_multi for the lock regions) and the thread-local code of a
+   saver over a segment of the stream (saver_loop: all saved / fails at chunk fp / closes with all N chunks / close fails) *)
+From SV Require Import Proof.MailboxFailMulti.
 
 (* ---------- full statements (for the repaired code, fx = true) ---------- *)
 
@@ -320,7 +358,8 @@ Definition C06_full_failure_reaches_caller_fanout : Prop :=
     failure_reaches_caller (fan_net sp true (Some (ft, fp, c)) None) (fan_init sp true (Some (ft, fp, c)) None)
                            (fan_main sp) (fn_N sp) c.
 
-(* the consumer raises c while handling chunk k *)
+(* the consumer raises c while handling chunk k (PROVED above without savers: C06_consumer_exception_chain;
+   with savers it is this Definition, not proved in general) *)
 Definition C06_full_consumer_exception_chain : Prop :=
   forall (sp : chain_spec) (k c : nat),
     valid_chain sp -> k < ch_N sp ->
@@ -328,7 +367,8 @@ Definition C06_full_consumer_exception_chain : Prop :=
                            (chain_main sp) (ch_N sp) c.
 
 (* the consumer closes the iterator after chunk k: all threads stop; the caller sees OutsideException through
-   Context.get_iter, a plain return of close() (GeneratorExit re-raised) on the processor's own iterator *)
+   Context.get_iter, a plain return of close() (GeneratorExit re-raised) on the processor's own iterator
+   (PROVED above without savers: C06_consumer_close_stops_all; with savers it is this Definition) *)
 Definition C06_full_consumer_close_stops_all : Prop :=
   forall (sp : chain_spec) (k c : nat),
     valid_chain sp -> k < ch_N sp ->
@@ -336,7 +376,9 @@ Definition C06_full_consumer_close_stops_all : Prop :=
                            (chain_main sp) (ch_N sp) (if ch_relay sp then C_OUTSIDE else C_GENEXIT).
 
 (* without failures every maximal schedule ends with everything delivered and saved; chains and fan-outs have no
-   chunk lag (every stage is 1:1), so any capacity >= 1 is enough *)
+   chunk lag (every stage is 1:1), so any capacity >= 1 is enough
+   (PROVED above for chains without savers: C06_no_failure_terminates_chain; with savers, and for fan-outs, it is
+   this Definition, not proved in general) *)
 Definition C06_full_no_failure_terminates : Prop :=
   (forall sp : chain_spec, valid_chain sp ->
      completes (chain_net sp true None None) (chain_init sp true None None) (chain_main sp) (ch_N sp)) /\
